@@ -19,11 +19,18 @@ Emitted facts (both are used by Model/ServerDeadline.v `expired_status`)
 import ast
 
 from extract_facts import Unsupported, parse, func_node, class_node
+import pynorm
 
 WRAPPER_CLASSES = {'Wrapper', 'DeadlineWrapper'}
 
 
 # ---- request_handler: roles of the context managers ------------------------------------------------
+
+class _Item:
+    """the i-th component of a tuple-valued expression (target of `a, b = <expr>`)"""
+    def __init__(self, value, index):
+        self.value, self.index = value, index
+
 
 def _assign_values(fn):
     """name -> list of value expressions ever assigned to it in fn (all branches)"""
@@ -33,6 +40,10 @@ def _assign_values(fn):
             for t in n.targets:
                 if isinstance(t, ast.Name):
                     out.setdefault(t.id, []).append(n.value)
+                elif isinstance(t, (ast.Tuple, ast.List)):
+                    for i, e in enumerate(t.elts):
+                        if isinstance(e, ast.Name):
+                            out.setdefault(e.id, []).append(_Item(n.value, i))
         elif isinstance(n, ast.AnnAssign) and n.value is not None and isinstance(n.target, ast.Name):
             out.setdefault(n.target.id, []).append(n.value)
         elif isinstance(n, ast.NamedExpr) and isinstance(n.target, ast.Name):
@@ -40,8 +51,35 @@ def _assign_values(fn):
     return out
 
 
+def _components(expr, index, env, seen):
+    """the expressions the index-th component of a tuple-valued expression can be; None = unknown"""
+    if isinstance(expr, (ast.Tuple, ast.List)):
+        return [expr.elts[index]] if index < len(expr.elts) else None
+    if isinstance(expr, ast.IfExp):
+        a = _components(expr.body, index, env, seen)
+        b = _components(expr.orelse, index, env, seen)
+        return None if a is None or b is None else a + b
+    if isinstance(expr, ast.Name) and expr.id in env and expr.id not in seen:
+        out = []
+        for v in env[expr.id]:
+            if isinstance(v, _Item):
+                return None
+            c = _components(v, index, env, seen + (expr.id,))
+            if c is None:
+                return None
+            out += c
+        return out
+    return None
+
+
 def _role(expr, env, seen=()):
     """'deadline' | 'wrapper' | None for a context-manager expression"""
+    if isinstance(expr, _Item):
+        comps = _components(expr.value, expr.index, env, seen)
+        if not comps:
+            return None
+        roles = {_role(c, env, seen) for c in comps}
+        return roles.pop() if len(roles) == 1 else None
     if isinstance(expr, ast.Call):
         f = expr.func
         if isinstance(f, ast.Attribute) and f.attr == 'start':
@@ -68,7 +106,8 @@ def _has_await(nodes):
 
 
 def with_order(repo):
-    fn = func_node(parse(repo, 'grpclib/server.py'), 'request_handler')
+    # private module-level helpers (e.g. one that creates the wrapper pair) are inlined first
+    fn = pynorm.canonical_function(parse(repo, 'grpclib/server.py'), None, 'request_handler', temps=False)
     env = _assign_values(fn)
 
     def items_roles(w):
